@@ -97,6 +97,11 @@ EXTRA_PAIRS = [
     ("FT3", ["C05"]),    # a free test on the unmasked entry never finds clusters whose reserved bits are set: space is lost
     ("IO1", ["C09"]),    # embedded_io::Write::flush is flush_file: what a generic caller flushed is durable
     ("LS4", ["C10"]),    # a delete that scans another directory than the one named tombstones a foreign entry and frees a live file's chain
+    # --- round 10
+    ("IO1", ["C08"]),    # the adapters answer a stale handle / a held lock with an error, never with a panic
+    ("TC1", ["C09"]),    # an undo path that frees the previous last cluster / ends the directory early destroys files that were already flushed
+    ("IX1", ["C03"]),    # a table indexed with another table's index edits the FAT of the wrong volume
+    ("NE1", ["C10"]),    # a reused slot that keeps the deleted file's start cluster is a live entry on free clusters
     ("SK5", ["C05"]),    # positions the translation refuses are capacity that cannot be used: the volume fills up early
     ("SK1", ["C07"]),    # the append modes position the handle with seek_from_end(0): it must succeed for every file length
 ]
